@@ -379,4 +379,9 @@ example : (∀ op ∈ [Op.new [65, 0, 66] true, .set (List.replicate 20 67) true
   rcases hop with h | h | h | h | h | h | h | h | h | h | h <;> subst h <;>
     simp [Op.WF, hI, intMax, strNewIntGuardSlack]
 
+
+/-- every source fact this property's model consumes was located in the current source by tools/extract (a fact that is not
+found is emitted with a placeholder value; this obligation then fails and the check uses the reference model) -/
+theorem source_facts_located_c11 : JsonC.Generated.factsFound_str = true := by decide
+
 end JsonC.StrStore
